@@ -85,9 +85,13 @@ func execC14(r *run, c caseT) {
 		r.stats["compile_error"]++
 		return
 	}
+	poison, poisoned := "", false
 	mkCtx := func(failAt int) (pongo2.Context, *int) {
 		calls := 0
 		gc := ctx.goContext()
+		if poisoned {
+			gc[poison] = 1
+		}
 		gc["tick"] = func() (*pongo2.Value, error) {
 			calls++
 			if failAt > 0 && calls == failAt {
@@ -202,6 +206,25 @@ func execC14(r *run, c caseT) {
 			return
 		}
 		r.stats["fault_positions"]++
+	}
+	// a context the engine rejects is rejected by every variant, with nothing written
+	for _, bad := range []string{"not an identifier", "k-ey", ""} {
+		poison, poisoned = bad, true
+		f, _, _, _ := runAll(0, -1)
+		poison, poisoned = "", false
+		if f.panicked != nil {
+			r.reject(id, "panic with a rejected context", map[string]any{"template": src, "key": bad, "panic": fmt.Sprint(f.panicked)})
+			return
+		}
+		if !(f.es && f.eb && f.ew && f.eu && f.ewb && f.ewsb) {
+			r.reject(id, "a context with an invalid key is not rejected by every Execute variant", map[string]any{"template": src, "key": bad,
+				"failed": map[string]bool{"Execute": f.es, "ExecuteBytes": f.eb, "ExecuteWriter": f.ew, "ExecuteWriterUnbuffered": f.eu}})
+			return
+		}
+		if f.w != "" || f.u != "" || f.wb != "PRE" {
+			r.reject(id, "a rejected context left output in the caller's writer", map[string]any{"template": src, "key": bad})
+			return
+		}
 	}
 	// every position at which the caller's writer starts failing
 	for _, lim := range []int{0, 1, len(base.s) / 2, len(base.s) - 1} {
